@@ -18,6 +18,10 @@ pub enum Fault {
     Garbage(String, String),
     /// 200, well-formed JSON that fails the agent's validation
     InvalidDoc,
+    /// 200, well-formed JSON that fails the validation for another reason (0: version 2.0 without secureChannelEnabled but with a
+    /// valid secureChannelState "Wireserver"; 1: the same with "Disabled"; 2: version 1.0 with secureChannelEnabled but without
+    /// secureChannelState; 3: neither field). Each names rules and modes of its own, so accepting it would show.
+    InvalidDocKind(u8),
     /// connection reset without an answer
     Reset,
     /// (attestation only) the host processes the request - it may latch the key - but the reply is lost
@@ -111,6 +115,31 @@ fn fault_response(f: &Fault) -> ResponseSpec {
     match f {
         Fault::Status(code, body, ct) => ResponseSpec::status(*code, body.as_bytes()).with_header("Content-Type", ct),
         Fault::Garbage(body, ct) => ResponseSpec::ok(body.as_bytes()).with_header("Content-Type", ct),
+        Fault::InvalidDocKind(k) => {
+            let rules = serde_json::json!({
+                "imds": {"defaultAccess": "deny", "mode": "enforce", "id": "invalid-doc-imds-rules", "rules": {"privileges": [], "roles": [], "identities": [], "roleAssignments": []}},
+                "wireserver": {"defaultAccess": "deny", "mode": "enforce", "id": "invalid-doc-ws-rules", "rules": {"privileges": [], "roles": [], "identities": [], "roleAssignments": []}},
+            });
+            let mut d = serde_json::json!({"authorizationScheme": "Azure-HMAC-SHA256", "keyDeliveryMethod": "http", "keyGuid": null, "requiredClaimsHeaderPairs": ["isRoot"], "authorizationRules": rules});
+            match k % 4 {
+                0 => {
+                    d["version"] = "2.0".into();
+                    d["secureChannelState"] = "Wireserver".into();
+                }
+                1 => {
+                    d["version"] = "2.0".into();
+                    d["secureChannelState"] = "Disabled".into();
+                }
+                2 => {
+                    d["version"] = "1.0".into();
+                    d["secureChannelEnabled"] = true.into();
+                }
+                _ => {
+                    d["version"] = "2.0".into();
+                }
+            }
+            ResponseSpec::ok(serde_json::to_string(&d).unwrap().as_bytes()).with_header("Content-Type", "application/json; charset=utf-8")
+        }
         Fault::InvalidDoc => ResponseSpec::ok(br#"{"authorizationScheme":"Azure-HMAC-SHA256","keyDeliveryMethod":"http","keyGuid":null,"requiredClaimsHeaderPairs":["isRoot"],"secureChannelState":"bogus-state","version":"1.0"}"#).with_header("Content-Type", "application/json; charset=utf-8"),
         Fault::Reset | Fault::ResetAfterCommit => {
             let mut r = ResponseSpec::ok(b"");
